@@ -38,12 +38,16 @@ Lemma sel_eqb_eq : forall a b, sel_eqb a b = true -> a = b.
 Proof. destruct a, b; simpl; congruence. Qed.
 Lemma dsel_eqb_eq : forall a b, dsel_eqb a b = true -> a = b.
 Proof. destruct a, b; simpl; congruence. Qed.
+Lemma optnat_eqb_eq : forall a b, optnat_eqb a b = true -> a = b.
+Proof. destruct a, b; simpl; intros H; try discriminate; auto. apply Nat.eqb_eq in H. congruence. Qed.
 Lemma ckey_eqb_eq : forall a b, ckey_eqb a b = true -> a = b.
 Proof.
   destruct a, b; simpl; intros H; try discriminate; auto.
   - apply andb_true_iff in H as [H1 H2]. apply sel_eqb_eq in H1. apply Nat.eqb_eq in H2. congruence.
   - apply andb_true_iff in H as [H1 H2]. apply sel_eqb_eq in H1. apply Nat.eqb_eq in H2. congruence.
   - apply dsel_eqb_eq in H. congruence.
+  - apply andb_true_iff in H as [H1 H2]. apply optnat_eqb_eq in H1. apply Bool.eqb_prop in H2. congruence.
+  - apply andb_true_iff in H as [H1 H2]. apply optnat_eqb_eq in H1. apply Bool.eqb_prop in H2. congruence.
 Qed.
 
 (* ------------------------------------------------------------------ thaw / skeleton *)
@@ -92,7 +96,7 @@ Lemma walk_val_thaw : forall st n s v, walk_val (thaw st) n s v = walk_val st n 
 Proof.
   intros st n. induction n as [|n IH]; intros s v; destruct v as [p|c|o]; simpl; auto.
   destruct (memb o (inflight st)); auto. rewrite get_thaw. destruct (get st o) as [ob|]; simpl; auto.
-  destruct (sel_obj s (okind ob)); auto. f_equal. apply walk_list_ext. intros kv _. apply IH.
+  destruct (sel_obj s (okind ob)); auto. f_equal. f_equal. apply walk_list_ext. intros kv _. apply IH.
 Qed.
 
 Lemma walk_top_thaw : forall st s o, walk_top (thaw st) s o = walk_top st s o.
@@ -145,6 +149,29 @@ Definition p_direct (st : state) (o : nat) (d : dsel) : res cval :=
   | None => Exn EAttribute
   end.
 
+Definition p_count (st : state) (c : nat) : res nat :=
+  rbind (p_unique st c) (fun cv => rbind (r_list cv) (fun l => Ok (List.length l))).
+Fixpoint mapR {A B} (f : A -> res B) (l : list A) : res (list B) :=
+  match l with
+  | [] => Ok []
+  | x :: r => rbind (f x) (fun y => rbind (mapR f r) (fun ys => Ok (y :: ys)))
+  end.
+Definition mtt_item (st : state) (cls : option nat) (izd : bool) (it : item) : res (list item) :=
+  if cls_match cls (kind_of st (item_oid it)) then
+    if izd then Ok [it]
+    else rbind (p_count st (item_oid it)) (fun n => Ok (if Nat.ltb 0 n then [it] else []))
+  else Ok [].
+Definition p_mtt (st : state) (o : nat) (cls : option nat) (izd : bool) : res cval :=
+  if has_obj st o then
+    rbind (p_attr st o SModelRec) (fun c => rbind (r_list c) (fun l =>
+      rbind (mapR (mtt_item st cls izd) l) (fun ls => Ok (CList (List.concat ls)))))
+  else Exn EAttribute.
+Definition p_mwt (st : state) (o : nat) (cls : option nat) (izd : bool) : res cval :=
+  if has_obj st o then
+    rbind (p_mtt st o cls izd) (fun c => rbind (r_list c) (fun l =>
+      Ok (CList (map (fun it : item => ([], snd it)) l))))
+  else Exn EAttribute.
+
 (* the uncached value of a cache key on the current composition *)
 Definition pure_key (st : state) (o : nat) (k : ckey) : res cval :=
   match k with
@@ -153,23 +180,45 @@ Definition pure_key (st : state) (o : nat) (k : ckey) : res cval :=
   | KUnique => p_unique st o
   | KOrdered => p_ordered st o
   | KDirect d => p_direct st o d
+  | KMtt c z => p_mtt st o c z
+  | KMwt c z => p_mwt st o c z
   end.
+
+Lemma mapR_ext : forall {A B} (f g : A -> res B) l, (forall x, In x l -> f x = g x) -> mapR f l = mapR g l.
+Proof.
+  induction l as [|x l IH]; intros H; simpl; auto.
+  rewrite (H x) by (now left). rewrite IH; auto. intros y Hy. apply H. now right.
+Qed.
+
+Lemma kind_of_thaw : forall st c, kind_of (thaw st) c = kind_of st c.
+Proof. intros. unfold kind_of. now rewrite view_thaw. Qed.
 
 Lemma has_obj_thaw : forall st o, has_obj (thaw st) o = has_obj st o.
 Proof. intros. unfold has_obj. rewrite get_thaw. destruct (get st o); reflexivity. Qed.
 
+Lemma p_pit_thaw : forall st o s, p_pit (thaw st) o s = p_pit st o s.
+Proof. intros. unfold p_pit. now rewrite has_obj_thaw, walk_top_thaw. Qed.
+Lemma p_attr_thaw : forall st o s, p_attr (thaw st) o s = p_attr st o s.
+Proof. intros. unfold p_attr. now rewrite has_obj_thaw, p_pit_thaw. Qed.
+Lemma p_unique_thaw : forall st o, p_unique (thaw st) o = p_unique st o.
+Proof. intros. unfold p_unique. now rewrite has_obj_thaw, p_attr_thaw. Qed.
+Lemma p_count_thaw : forall st o, p_count (thaw st) o = p_count st o.
+Proof. intros. unfold p_count. now rewrite p_unique_thaw. Qed.
+Lemma p_mtt_thaw : forall st o c z, p_mtt (thaw st) o c z = p_mtt st o c z.
+Proof.
+  intros. unfold p_mtt. rewrite has_obj_thaw, p_attr_thaw.
+  destruct (has_obj st o); auto. destruct (p_attr st o SModelRec) as [[l|]|e]; auto. simpl.
+  rewrite (mapR_ext (mtt_item (thaw st) c z) (mtt_item st c z)); auto.
+  intros it _. unfold mtt_item. now rewrite kind_of_thaw, p_count_thaw.
+Qed.
+
 Lemma pure_key_thaw : forall st o k, pure_key (thaw st) o k = pure_key st o k.
 Proof.
   intros st o k.
-  assert (Hp : forall s, p_pit (thaw st) o s = p_pit st o s).
-  { intros s. unfold p_pit. now rewrite has_obj_thaw, walk_top_thaw. }
-  assert (Ha : forall s, p_attr (thaw st) o s = p_attr st o s).
-  { intros s. unfold p_attr. now rewrite has_obj_thaw, Hp. }
-  assert (Hu : p_unique (thaw st) o = p_unique st o).
-  { unfold p_unique. now rewrite has_obj_thaw, Ha. }
-  destruct k; cbn [pure_key]; [apply Hp|apply Ha|exact Hu| |].
-  - unfold p_ordered. now rewrite has_obj_thaw, Hu.
+  destruct k; cbn [pure_key]; [apply p_pit_thaw|apply p_attr_thaw|apply p_unique_thaw| | |apply p_mtt_thaw|].
+  - unfold p_ordered. now rewrite has_obj_thaw, p_unique_thaw.
   - unfold p_direct. rewrite get_thaw. destruct (get st o); simpl; auto. now rewrite direct_items_thaw.
+  - unfold p_mwt. now rewrite has_obj_thaw, p_mtt_thaw.
 Qed.
 
 (* on a thawed state a cached call is its body *)
@@ -179,24 +228,58 @@ Proof.
   intros. unfold cached, has_obj. rewrite get_thaw. destruct (get st o); reflexivity.
 Qed.
 
+Lemma call_pit_thaw : forall st o s f, call_pit o s f (thaw st) = (thaw st, p_pit st o s).
+Proof.
+  intros. unfold call_pit. rewrite cached_thaw. unfold p_pit. destruct (has_obj st o); [|reflexivity].
+  unfold body_pit, gets. now rewrite walk_top_thaw.
+Qed.
+Lemma call_attr_thaw : forall st o s f, call_attr o s f (thaw st) = (thaw st, p_attr st o s).
+Proof.
+  intros. unfold call_attr. rewrite cached_thaw. unfold p_attr. destruct (has_obj st o); [|reflexivity].
+  unfold body_attr, bind. rewrite call_pit_thaw. destruct (p_pit st o s) as [[l|]|e]; reflexivity.
+Qed.
+Lemma call_unique_thaw : forall st o, call_unique o (thaw st) = (thaw st, p_unique st o).
+Proof.
+  intros. unfold call_unique. rewrite cached_thaw. unfold p_unique. destruct (has_obj st o); [|reflexivity].
+  unfold body_unique, bind. rewrite call_attr_thaw. destruct (p_attr st o SPrior) as [[l|]|e]; reflexivity.
+Qed.
+Lemma q_count_thaw : forall st o, q_count o (thaw st) = (thaw st, p_count st o).
+Proof.
+  intros. unfold q_count, bind, p_count. rewrite call_unique_thaw. destruct (p_unique st o) as [[l|]|e]; reflexivity.
+Qed.
+
+Lemma mapM_pure : forall {A B} (f : A -> M B) (g : A -> res B) tau l,
+  (forall x, f x tau = (tau, g x)) -> mapM f l tau = (tau, mapR g l).
+Proof.
+  intros A B f g tau l H. induction l as [|x l IH]; simpl; auto.
+  unfold bind. rewrite H. destruct (g x) as [y|e]; simpl; auto.
+  fold (@mapM A B f l). rewrite IH. destruct (mapR g l); reflexivity.
+Qed.
+
+Lemma call_mtt_thaw : forall st o c z, call_mtt o c z (thaw st) = (thaw st, p_mtt st o c z).
+Proof.
+  intros. unfold call_mtt. rewrite cached_thaw. unfold p_mtt. destruct (has_obj st o); [|reflexivity].
+  unfold body_mtt. unfold bind at 1. rewrite call_attr_thaw.
+  destruct (p_attr st o SModelRec) as [[l|]|e]; try reflexivity.
+  cbn [as_list rbind r_list]. unfold bind at 1. cbn [ret]. unfold bind at 1.
+  rewrite (mapM_pure _ (mtt_item st c z)).
+  - destruct (mapR (mtt_item st c z) l); reflexivity.
+  - intros it. unfold bind at 1, gets. rewrite kind_of_thaw. unfold mtt_item.
+    destruct (cls_match c (kind_of st (item_oid it))); [|reflexivity].
+    destruct z; [reflexivity|]. unfold bind. rewrite q_count_thaw. destruct (p_count st (item_oid it)); reflexivity.
+Qed.
+
 Lemma call_key_thaw : forall st o k, call_key o k (thaw st) = (thaw st, pure_key st o k).
 Proof.
   intros st o k.
-  assert (Hp : forall s f, call_pit o s f (thaw st) = (thaw st, p_pit st o s)).
-  { intros s f. unfold call_pit. rewrite cached_thaw. unfold p_pit. destruct (has_obj st o); [|reflexivity].
-    unfold body_pit, gets. now rewrite walk_top_thaw. }
-  assert (Ha : forall s f, call_attr o s f (thaw st) = (thaw st, p_attr st o s)).
-  { intros s f. unfold call_attr. rewrite cached_thaw. unfold p_attr. destruct (has_obj st o); [|reflexivity].
-    unfold body_attr, bind. rewrite Hp. destruct (p_pit st o s) as [[l|]|e]; reflexivity. }
-  assert (Hu : call_unique o (thaw st) = (thaw st, p_unique st o)).
-  { unfold call_unique. rewrite cached_thaw. unfold p_unique. destruct (has_obj st o); [|reflexivity].
-    unfold body_unique, bind. rewrite Ha. destruct (p_attr st o SPrior) as [[l|]|e]; reflexivity. }
-  destruct k; cbn [pure_key call_key]; [apply Hp|apply Ha|exact Hu| |].
+  destruct k; cbn [pure_key call_key]; [apply call_pit_thaw|apply call_attr_thaw|apply call_unique_thaw| | |apply call_mtt_thaw|].
   - unfold call_ordered. rewrite cached_thaw. unfold p_ordered. destruct (has_obj st o); [|reflexivity].
-    unfold body_ordered, bind. rewrite Hu. destruct (p_unique st o) as [[l|]|e]; reflexivity.
+    unfold body_ordered, bind. rewrite call_unique_thaw. destruct (p_unique st o) as [[l|]|e]; reflexivity.
   - unfold call_direct. rewrite cached_thaw. unfold p_direct, has_obj.
     destruct (get st o) eqn:G; [|reflexivity]. unfold body_direct, gets. rewrite get_thaw, G. cbn [option_map].
     now rewrite direct_items_thaw.
+  - unfold call_mwt. rewrite cached_thaw. unfold p_mwt. destruct (has_obj st o); [|reflexivity].
+    unfold body_mwt, bind. rewrite call_mtt_thaw. destruct (p_mtt st o cls izd) as [[l|]|e]; reflexivity.
 Qed.
 
 (* ------------------------------------------------------------------ invariant *)
@@ -343,6 +426,29 @@ Proof.
   apply Coh_bind; [apply Coh_as_list|]. intros l. apply Coh_ret.
 Qed.
 
+Lemma Coh_call_mtt : forall o c z, Coh (call_mtt o c z).
+Proof.
+  intros. unfold call_mtt. apply Coh_cached; [|reflexivity].
+  unfold body_mtt. apply Coh_bind; [apply Coh_call_attr|]. intros cv.
+  apply Coh_bind; [apply Coh_as_list|]. intros l.
+  apply Coh_bind; [|intros; apply Coh_ret].
+  apply Coh_mapM. intros it _. apply Coh_bind; [apply Coh_gets; intros; apply kind_of_thaw|]. intros k.
+  destruct (cls_match c k); [|apply Coh_ret]. destruct z; [apply Coh_ret|].
+  apply Coh_bind; [apply Coh_q_count|]. intros; apply Coh_ret.
+Qed.
+
+Lemma Coh_call_mwt : forall o c z, Coh (call_mwt o c z).
+Proof.
+  intros. unfold call_mwt. apply Coh_cached; [|reflexivity].
+  unfold body_mwt. apply Coh_bind; [apply Coh_call_mtt|]. intros cv.
+  apply Coh_bind; [apply Coh_as_list|]. intros l. apply Coh_ret.
+Qed.
+
+Lemma Coh_q_models : forall o c z, Coh (q_models o c z).
+Proof.
+  intros. unfold q_models. apply Coh_bind; [apply Coh_call_mwt|]. intros cv. apply Coh_as_list.
+Qed.
+
 Lemma Coh_q_paths : forall o, Coh (q_paths o).
 Proof.
   intros. unfold q_paths. apply Coh_bind; [apply Coh_call_pit|]. intros c.
@@ -437,4 +543,5 @@ Proof.
   - apply Coh_bind; [apply Coh_q_ordered|]. intros; apply Coh_ret.
   - apply Coh_bind; [apply Coh_q_instance|]. intros; apply Coh_ret.
   - apply Coh_q_info.
+  - apply Coh_bind; [apply Coh_q_models|]. intros; apply Coh_ret.
 Qed.
